@@ -88,6 +88,7 @@ def intern (c : Cache) (bytes : List UInt8) : Option (Cache × Nat) :=
     match sl.getD b .empty with
     | .live p _ => some ({ c with slots := sl }, p)
     | _ => none
+  | (_, .miss none) => none          -- janet_assert(firstEmpty != NULL, "symcache failed to get memory") aborts
   | (sl, .miss bucket) =>
     (put { c with slots := sl, next := c.next + 1 } c.next bytes bucket).map fun c' => (c', c.next)
 
